@@ -1,7 +1,7 @@
 /-
 Specification side of C15: the abstract panel and the canonical container of each kind that
 holds it.  Written without reference to the converters' algorithms: a panel is a rectangular
-`X[i][j][t]` (instance, variable, time) plus variable names; `nestedOf / miOf / longOf / tab2Of`
+`X[i][j][t]` (instance, variable, time) plus variable names; `nestedOf / miOf / longRowsM / tab2Rows`
 say what each container must look like to *hold* that panel.
 -/
 import SkVerif.Model.Panel
@@ -25,15 +25,6 @@ def miRows {α} (X : Arr3 α) : List ((Int × Int) × List α) :=
 
 def miOf {ν α} (inst time : String) (names : List ν) (X : Arr3 α) : MI ν α :=
   ⟨inst, time, names, miRows X⟩
-
-/-- rows of the long table holding `X`, variable by variable, then instance, then time -/
-def longRows {ν α} (names : List ν) (X : Arr3 α) : List (Int × Int × ν × α) :=
-  ((names.zip (transposeW (nCols X) X)).map (fun p =>
-    (p.2.zipIdx.map (fun s =>
-      s.1.zipIdx.map (fun v => ((s.2 : Int), (v.2 : Int), p.1, v.1)))).flatten)).flatten
-
-def longOf {ν α} (inst time dim : String) (names : List ν) (X : Arr3 α) : Long ν α :=
-  ⟨inst, time, dim, longRows names X⟩
 
 /-- rows of the long table holding `X`, as the molten canonical multi-index frame: one row
 `(i, q, name_j, X[i][j][q])` per cell, variable after variable -/
